@@ -1,0 +1,30 @@
+//! Child module of `service_daemon` (feature `verif-hooks`): exposes private pure helpers.
+//! Delegation only.
+
+pub(crate) fn name_change(original: &str) -> String {
+    super::name_change(original)
+}
+
+pub(crate) fn hostname_change(original: &str) -> String {
+    super::hostname_change(original)
+}
+
+pub(crate) fn valid_instance_name(name: &str) -> bool {
+    super::valid_instance_name(name)
+}
+
+pub(crate) fn check_service_name(fullname: &str) -> Result<(), String> {
+    super::check_service_name(fullname).map_err(|e| e.to_string())
+}
+
+pub(crate) fn check_hostname(hostname: &str) -> Result<(), String> {
+    super::check_hostname(hostname).map_err(|e| e.to_string())
+}
+
+pub(crate) fn check_domain_suffix(name: &str) -> Result<(), String> {
+    super::check_domain_suffix(name).map_err(|e| e.to_string())
+}
+
+pub(crate) fn check_service_name_length(ty_domain: &str, limit: u8) -> Result<(), String> {
+    super::check_service_name_length(ty_domain, limit).map_err(|e| e.to_string())
+}
